@@ -92,6 +92,27 @@ CLAIMED = {
                  "that undeclared limits default to (0, None). The initial state being inside the limits is user input.",
         "note": _TB,
     },
+    "C09": {
+        "technique": "static analysis: intra-procedural abstract execution of the `parameters` setter over the completely "
+                     "enumerated accepted input forms (3-parameter abstract model: ordered list/tuple/array, (name,value) "
+                     "pairs in all 6 orders, dicts keyed by name or symbol in all orders, 18 partial updates, 25 successive "
+                     "format pairs, rejections), with helper summaries verified on the helpers' own source",
+        "level": "Decides that in every accepted form the value list read by the compiled evaluators holds, at the index "
+                 "of each parameter, the value supplied for that parameter's name; that partial updates keep the rest; "
+                 "that unknown names / wrong lengths raise. Exhaustive over the abstract input classes, not sampled.",
+        "note": _TB + "; abstract values are opaque tokens, control data concrete",
+    },
+    "C12": {
+        "technique": "static analysis: intra-procedural abstract execution of Event.__init__, Transition.__init__, "
+                     "add_transition/add_event/add_birth_death/add_ode and the list setters over completely enumerated "
+                     "abstract input classes; equality of the normalised event descriptor across API routes; effect tables "
+                     "for order independence",
+        "level": "Decides that every route (Event, Transition with own rate, legacy lists, birth by origin or destination) "
+                 "normalises a T/B/D process to the same (rate, type, origin, destination, magnitude); that Event accepts "
+                 "iff exactly one rate is supplied and keeps it; that setters delegate all elements in order; that both "
+                 "declaration helpers split strings identically; that builders accumulate additively.",
+        "note": _TB,
+    },
 }
 
 NOT_APPLICABLE = {}
